@@ -2,6 +2,9 @@
 // SPDX-License-Identifier: Apache-2.0
 
 use std::mem::{size_of, MaybeUninit};
+#[cfg(aws_clock_bound_verif)]
+use crate::verif_shim as atomic;
+#[cfg(not(aws_clock_bound_verif))]
 use std::sync::atomic;
 
 use crate::{syserror, ShmError};
